@@ -660,3 +660,81 @@ func (m *Model) Roots() *Roots {
 func unquote(s string) (string, error) {
 	return strconvUnquote(s)
 }
+
+// helpersOf: fn together with its private helpers — module functions reached from fn by static calls
+// all of whose call sites lie inside the set (so the helper is a piece of fn that was given a name).
+// Anonymous functions defined inside members belong too.
+func (m *Model) helpersOf(fn *ssa.Function) []*ssa.Function {
+	set := map[*ssa.Function]bool{fn: true}
+	order := []*ssa.Function{fn}
+	for changed := true; changed; {
+		changed = false
+		for _, f := range append([]*ssa.Function{}, order...) {
+			for _, an := range f.AnonFuncs {
+				if !set[an] {
+					set[an] = true
+					order = append(order, an)
+					changed = true
+				}
+			}
+			node := m.CG.Nodes[f]
+			if node == nil {
+				continue
+			}
+			for _, e := range node.Out {
+				h := e.Callee.Func
+				if set[h] || h.Blocks == nil || !m.InModule(h) || e.Site == nil || e.Site.Common().StaticCallee() != h {
+					continue
+				}
+				if h.Object() != nil && h.Object().Exported() {
+					continue
+				}
+				private := true
+				if hn := m.CG.Nodes[h]; hn != nil {
+					for _, in := range hn.In {
+						if !set[in.Caller.Func] || in.Site == nil || in.Site.Common().StaticCallee() != h {
+							private = false
+						}
+					}
+				}
+				if private {
+					set[h] = true
+					order = append(order, h)
+					changed = true
+				}
+			}
+		}
+	}
+	return order
+}
+
+// resolveUp: the values a helper's parameter stands for at the call sites inside the helper set
+// (the value itself when it is not a parameter of a private helper). anchor's own parameters stay.
+func (m *Model) resolveUp(v ssa.Value, anchor *ssa.Function, depth int) []ssa.Value {
+	p, ok := v.(*ssa.Parameter)
+	if !ok || p.Parent() == anchor || depth > 4 {
+		return []ssa.Value{v}
+	}
+	h := p.Parent()
+	idx := -1
+	for i, q := range h.Params {
+		if q == p {
+			idx = i
+		}
+	}
+	node := m.CG.Nodes[h]
+	if idx < 0 || node == nil {
+		return []ssa.Value{v}
+	}
+	var out []ssa.Value
+	for _, e := range node.In {
+		if e.Site == nil || e.Site.Common().StaticCallee() != h || idx >= len(e.Site.Common().Args) {
+			return []ssa.Value{v}
+		}
+		out = append(out, m.resolveUp(e.Site.Common().Args[idx], anchor, depth+1)...)
+	}
+	if len(out) == 0 {
+		return []ssa.Value{v}
+	}
+	return out
+}
